@@ -72,12 +72,16 @@ theorem C04_commands_start_idle (p : Prog) (h : Hist) {s0 s : St} (hc : Ctl s0) 
 
 /-- A flag is set only while the cleanup that clears it is the very next thing the machine does: the top of the stack
     is the body (ordinary), its `cleanup` frame, or — for an exclusive system — the body / the flush / the batch whose
-    first command is the queued cleanup. -/
+    first command is the queued cleanup; or — when an exclusive body applies a command in-line — the prelude of that
+    command's runner (collector, poll), which runs with the body's clean-up still first in the world queue and ends in
+    the poll's flush (`FlagInv.lead`). -/
 theorem C04_flag_means_cleanup_pending (p : Prog) (h : Hist) {s0 s : St} (hc : Ctl s0) (ho : OnceInv s0) (hf : FlagInv s0)
     (hr : Reach p h s0 s) (hflag : ¬ Idle s) :
     ∃ f rest, s.stack = f :: rest ∧
       ((∃ sys k i acc, f = .bodyActs sys k i acc) ∨ (∃ k, f = .cleanup k) ∨ (∃ sys i, f = .exclActs sys i) ∨
-       f = .flush ∨ (∃ k tl, f = .batch (Cmd.cleanup k :: tl))) := by
+       f = .flush ∨ (∃ k tl, f = .batch (Cmd.cleanup k :: tl)) ∨
+       (((∃ sys k, f = .runnerStart sys k) ∨ f = .gc ∨ (∃ w, f = .despawnWork w) ∨ f = .poll) ∧
+        ∃ k tl, s.wq = Cmd.cleanup k :: tl)) := by
   obtain ⟨_, _, fi⟩ := all_reach p h hc ho hf hr
   have ht := fi.top
   cases hst : s.stack with
@@ -92,9 +96,25 @@ theorem C04_flag_means_cleanup_pending (p : Prog) (h : Hist) {s0 s : St} (hc : C
     | flush => exact Or.inr (Or.inr (Or.inr (Or.inl rfl)))
     | batch cs =>
       rcases ht with ⟨k, tl, hcs, _⟩ | ⟨hi, _, _⟩
-      · exact Or.inr (Or.inr (Or.inr (Or.inr ⟨k, tl, by rw [hcs]⟩)))
+      · exact Or.inr (Or.inr (Or.inr (Or.inr (Or.inl ⟨k, tl, by rw [hcs]⟩))))
       · exact absurd ((idle_iff s).mp hi) hflag
     | topActs t i => exact absurd ((idle_iff s).mp ht.1) hflag
+    | runnerStart sys k =>
+      rcases ht with ⟨k', tl, hwq, _, _⟩ | ⟨hi, _⟩
+      · exact Or.inr (Or.inr (Or.inr (Or.inr (Or.inr ⟨Or.inl ⟨sys, k, rfl⟩, k', tl, hwq⟩))))
+      · exact absurd ((idle_iff s).mp hi) hflag
+    | gc =>
+      rcases ht with ⟨k', tl, hwq, _, _⟩ | ⟨hi, _⟩
+      · exact Or.inr (Or.inr (Or.inr (Or.inr (Or.inr ⟨Or.inr (Or.inl rfl), k', tl, hwq⟩))))
+      · exact absurd ((idle_iff s).mp hi) hflag
+    | despawnWork w =>
+      rcases ht with ⟨k', tl, hwq, _, _⟩ | ⟨hi, _⟩
+      · exact Or.inr (Or.inr (Or.inr (Or.inr (Or.inr ⟨Or.inr (Or.inr (Or.inl ⟨w, rfl⟩)), k', tl, hwq⟩))))
+      · exact absurd ((idle_iff s).mp hi) hflag
+    | poll =>
+      rcases ht with ⟨k', tl, hwq, _, _⟩ | ⟨hi, _⟩
+      · exact Or.inr (Or.inr (Or.inr (Or.inr (Or.inr ⟨Or.inr (Or.inr (Or.inr rfl)), k', tl, hwq⟩))))
+      · exact absurd ((idle_iff s).mp hi) hflag
     | _ => exact absurd ((idle_iff s).mp ht.1) hflag
 
 example : FlagInv ({} : St) := flag_default
@@ -148,8 +168,19 @@ theorem exclusive_cleanup_queued_first (s : St) (sys idx : Nat) (k : Kind) (hal 
   · simp [doRunnerLookup, hal, hst, hno, hex, St.push]
 
 /-- Commands an exclusive body queues go behind the cleanup. -/
-theorem exclusive_body_appends (p : Prog) (s : St) (sys i : Nat) (a : Act) (h : p sys i s = some a) :
+theorem exclusive_body_appends (p : Prog) (s : St) (sys i : Nat) (a : Act) (h : p sys i s = some a) (hn : ∀ t, a ≠ .runNow t) :
     (doExclActs p s sys i).wq = (enqueue s a).1.wq ++ (enqueue s a).2 := by
+  unfold doExclActs
+  split
+  · rename_i h0; rw [h] at h0; cases h0
+  · rename_i t h0; rw [h] at h0; cases h0; exact absurd rfl (hn t)
+  · rename_i a' _ h0; rw [h] at h0; cases h0; simp [St.push]
+
+/-- ... except a command applied in-line (`SystemCommand::apply(world)`): its runner starts at once, over whatever the body
+    has queued; the runner's own poll flushes that — the body's clean-up first — before the target is looked up
+    (`C04_every_run_starts_idle` still holds for it). -/
+theorem exclusive_body_applies_inline (p : Prog) (s : St) (sys i t : Nat) (h : p sys i s = some (.runNow t)) :
+    (doExclActs p s sys i).stack = Frame.runnerStart t .plain :: Frame.exclActs sys (i + 1) :: s.stack ∧ (doExclActs p s sys i).wq = s.wq := by
   simp [doExclActs, h, St.push]
 
 /-- **Abort path**: `setup` immediately followed by `cleanup` — from idle trackers it returns to idle trackers. -/
